@@ -584,6 +584,11 @@ func checkC03Hist(c any, r *Rec) error {
 				err = s.BanFilter(op.Name)
 			}
 			wantErr := !known || m.frozen || already
+			if !m.frozen && (!known || already) {
+				// banning an unknown name or banning twice before the freeze: refused today, but the
+				// statement only says that late bans are refused - either outcome is admitted
+				wantErr = err != nil
+			}
 			if m.maybe && !m.frozen && known && !already {
 				wantErr = err != nil // either outcome is admitted; a refusal settles that the set is frozen
 				if err != nil {
@@ -728,7 +733,7 @@ func genC03Hist(t *rapid.T) *c03Hist {
 
 var _ = register(&propSpec{
 	ID:    "C03.history",
-	Rule:  "call histories (1-12 operations on 2 sets) over BanTag, BanFilter, FromString, FromBytes, FromFile, FromCache (valid, broken and missing sources), RenderTemplateString/Bytes/File, CleanCache() / CleanCache(name) (which must not thaw a set), and probes that compile a one-tag / one-filter template; names drawn from registered, unregistered and already banned ones. Model per set: banned tags, banned filters, frozen flag. Ban* must fail iff unknown, frozen or duplicate and a refused ban changes nothing; every From*/Render* freezes (also when it fails); probes fail iff the model says banned; a final sweep probes every banned name and controls in both sets. Non-trivial: a ban of a known, not yet banned name refused after the freeze.",
+	Rule:  "call histories (1-12 operations on 2 sets) over BanTag, BanFilter, FromString, FromBytes, FromFile, FromCache (valid, broken and missing sources), RenderTemplateString/Bytes/File, CleanCache() / CleanCache(name) (which must not thaw a set), and probes that compile a one-tag / one-filter template; names drawn from registered, unregistered and already banned ones. Model per set: banned tags, banned filters, frozen flag. Ban* must succeed for a known, not yet banned name before the freeze and must be refused after it (unknown names and duplicates before the freeze may go either way); a refused ban changes nothing; every From*/Render* freezes (also when it fails); probes fail iff the model says banned; a final sweep probes every banned name and controls in both sets. Non-trivial: a ban of a known, not yet banned name refused after the freeze.",
 	Gen:   func(t *rapid.T) any { return genC03Hist(t) },
 	New:   func() any { return &c03Hist{} },
 	Check: checkC03Hist,
